@@ -220,6 +220,9 @@ func runC04(p *Prog, r *Report) {
 	if want("C04.11") {
 		ruleTrSeqAfterFlush(p, r, "C04.11")
 	}
+	if want("C04.16") {
+		ruleManifestReplay(p, r, "C04.16")
+	}
 	if want("C04.15") {
 		ruleBatchCodec(p, r, "C04.15")
 	}
